@@ -204,7 +204,7 @@ def bad_schema(rng):
 
 def cases(tier, seed, rng):
     from vlib.runner import Case
-    n = 250 if tier == 'quick' else 3000
+    n = 250 if tier == 'quick' else 2000
     out = []
     for _ in range(n):
         out.append(Case(bad_schema(rng), 'gen:frame-schema') if rng.random() < 0.08 else Case(history(rng, tier), 'gen:frame'))
